@@ -103,9 +103,9 @@ WellFormed(toks) == Len(toks) > 0 /\ Open(toks, 1, 1) = 0
 (*   nt    number of EXIT trap actions run so far (all environments)       *)
 (*   e     errexit option (1 = on)                                         *)
 (*   fired TRUE iff this environment is terminating because of errexit     *)
-(*   lb,lc ghost tags (no influence on the outcome): the rule "status of    *)
-(*         the last compound-list-2 executed" was applied after a break in  *)
-(*         a loop condition (lb) / after a body cut short by continue (lc)  *)
+(*   lc    ghost tag (no influence on the outcome): the rule "status of    *)
+(*         the last compound-list-2 executed" was applied after a body cut *)
+(*         short by continue                                               *)
 (* Context (dynamic, handed down):                                         *)
 (*   ig    -e is being ignored (XCU 2.15 set -e, exception 2)              *)
 (*   ld    number of loops lexically enclosing the command in the current  *)
@@ -124,7 +124,7 @@ Undef == [k |-> "undef", n |-> 0, s |-> "", w |-> 0, r |-> 0, m |-> 0, c |-> <<>
 State0(e, trap) ==
   [st |-> 0, tr |-> <<>>, dv |-> "none", dn |-> 0, fn |-> [x \in FNames |-> Undef],
    v |-> "", c |-> 0, fuel |-> Fuel, en |-> 0, trap |-> trap, nt |-> 0, e |-> e,
-   fired |-> FALSE, lb |-> FALSE, lc |-> FALSE]
+   fired |-> FALSE, lc |-> FALSE]
 
 Ctx0 == [ig |-> FALSE, ld |-> 0, od |-> 0, infn |-> FALSE]
 
@@ -178,7 +178,7 @@ Sub(t, S, C) ==
                [ig |-> C.ig, ld |-> 0, od |-> 0, infn |-> FALSE])
       S2 == RunExitTrap(S1)
   IN [S EXCEPT !.st = S2.st, !.tr = S2.tr, !.fuel = S2.fuel, !.en = S2.en, !.nt = S2.nt,
-               !.lb = S2.lb, !.lc = S2.lc,
+               !.lc = S2.lc,
                !.dv = IF S2.dv \in {"unspec", "div"} THEN S2.dv ELSE "none"]
 
 \* Function call (2.9.5): the body runs in the current environment; return
@@ -234,9 +234,15 @@ WLoop(t, S, C, last, lastn, until) ==
   ELSE
   LET C1 == [C EXCEPT !.ld = @ + 1]
       S1 == Ev(t.c[1], [S EXCEPT !.fuel = @ - 1], [C1 EXCEPT !.ig = TRUE])
-  IN CASE S1.dv = "brk" -> (IF S1.dn = 1
-                            THEN [LeaveLoop(S1) EXCEPT !.st = last, !.lb = @ \/ last # 0]
-                            ELSE LeaveLoop(S1))
+  IN CASE S1.dv = "brk" ->
+            \* break in the *condition*.  2.9.4.3 says "the exit status of the last
+            \* compound-list-2 executed" (dash), but break itself completes with 0 and
+            \* bash and this project return that; yash-semantics pins it in a unit test
+            \* commented "It is POSIXly unclear what the exit status ... should be".
+            \* Where the two readings differ the run is unspecified.
+            (IF S1.dn = 1
+             THEN (IF last # 0 THEN Abandon(S1, "unspec") ELSE [LeaveLoop(S1) EXCEPT !.st = 0])
+             ELSE LeaveLoop(S1))
        [] S1.dv = "cnt" -> (IF S1.dn = 1 THEN WLoop(t, LeaveLoop(S1), C, last, lastn, until)
                             ELSE LeaveLoop(S1))
        [] S1.dv # "none" -> S1
@@ -331,7 +337,7 @@ Run(t, o) ==
       S2 == RunExitTrap(S1)
   IN [oc |-> IF S2.dv \in {"unspec", "div"} THEN S2.dv ELSE "ok",
       tr |-> S2.tr, st |-> S2.st, nt |-> S2.nt, fired |-> S2.fired, x |-> S2.dv,
-      tag |-> (IF S2.lb THEN "B" ELSE "") \o (IF S2.lc THEN "C" ELSE "")]
+      tag |-> IF S2.lc THEN "C" ELSE ""]
 
 NLines(t) == Len(Lines(t))
 =============================================================================
